@@ -100,7 +100,7 @@ def pmap(fn, items, jobs=None, chunk=64):
     import os
     items = list(items)
     jobs = jobs or int(os.environ.get('VERIF_JOBS', '16'))
-    if len(items) < 200 or jobs <= 1:
+    if len(items) < 24 or jobs <= 1:
         return [fn(x) for x in items]
     with mp.get_context('fork').Pool(jobs) as pool:
-        return pool.map(fn, items, chunksize=chunk)
+        return pool.map(fn, items, chunksize=max(1, min(chunk, len(items) // (jobs * 4) or 1)))
